@@ -221,8 +221,12 @@ static void probe_quit(void)
 		}
 		if (check_texts("after the refused q"))
 			return;
-		if (!buf_dirty(exh_curpath(), NULL) && !probe_partial)
-			nx_viol("c02-quit-switch", "after the refused q the current buffer is %s, which is not a modified one", exh_curpath());
+		/* the editor may also count a buffer as modified when it is merely off its saved history position */
+		{
+			struct mbuf *cm = m_find(exh_curpath());
+			if (!buf_dirty(exh_curpath(), NULL) && !probe_partial && cm && cm->idx == cm->saved_idx)
+				nx_viol("c02-quit-switch", "after the refused q the current buffer is %s, which is not a modified one", exh_curpath());
+		}
 	} else if (probe_allsaved) {
 		/* (3) every buffer is at its saved history position: quit must be allowed again */
 		if (alive)
